@@ -44,69 +44,121 @@ theorem pg_zero (c s : Expr) : pg 0 c s = s := by simp [pg]
 
 theorem bopPrec_le (op : BOp) : bopPrec op ≤ 16 := by cases op <;> simp [bopPrec]
 
-/-- stage-A trees: the printer's tree transformation is idempotent -/
-theorem addShow_idem (e : Expr) (pc : Bool) (k : Nat) (hc : canon pc k e = true) : addShow (addShow e) = addShow e := by
-  induction e generalizing pc k with
-  | num i => rfl
-  | var i => rfl
-  | str i => rfl
-  | group e ih =>
-    simp only [canon, Bool.and_eq_true] at hc
-    simp only [addShow, ih _ _ hc.2]
-  | unary op e ih =>
-    simp only [canon, Bool.and_eq_true] at hc
-    simp only [addShow, pg_idem 10 e (by omega) (ih _ _ hc.2)]
-  | binary op l r ihl ihr =>
-    simp only [canon, Bool.and_eq_true] at hc
-    simp only [addShow, pg_idem _ l (bopPrec_le op) (ihl _ _ hc.1.1.2), pg_idem _ r (bopPrec_le op) (ihr _ _ hc.1.2)]
-  | cond c t f ihc iht ihf =>
-    simp only [canon, Bool.and_eq_true] at hc
-    simp only [addShow, pg_idem 1 c (by omega) (ihc _ _ hc.1.1.2), pg_idem 1 t (by omega) (iht _ _ hc.1.2), pg_idem 1 f (by omega) (ihf _ _ hc.2)]
-  | assign op l r ihl ihr =>
-    cases l <;> simp [canon] at hc
-    rename_i a
-    simp only [addShow, pg_zero, ihr _ _ hc.2]
-  | none => simp [canon] at hc
-  | inArr e a ih =>
-    simp only [canon, Bool.and_eq_true] at hc
-    simp only [addShow, pg_idem 4 e (by omega) (ih _ _ hc.2)]
-  | incr p d e _ => simp [canon] at hc
-  | field e _ => simp [canon] at hc
-  | index a i _ => simp [canon] at hc
-  | getline c t f _ _ _ => simp [canon] at hc
+/-- the language of the printer theorems: no concatenation node, no `++ --`, `$`, `a[i]`; assignment targets are variables -/
+def noConcat : Expr → Bool
+  | .group e => noConcat e
+  | .unary _ e => noConcat e
+  | .binary op l r => op != .concat && noConcat l && noConcat r
+  | .cond c t f => noConcat c && noConcat t && noConcat f
+  | .assign _ (.var _) r => noConcat r
+  | .inArr e _ => noConcat e
+  | .num _ | .var _ | .str _ => true
+  | _ => false
 
-theorem showE_eq_render (e : Expr) (pc : Bool) (k : Nat) (hc : canon pc k e = true) : showE e = render (addShow e) := by
+/-- the printer's tree transformation is idempotent -/
+theorem addShow_idem (e : Expr) (hn : noConcat e = true) (pc : Bool) (k : Nat) (hc : canon pc k e = true) :
+    addShow (addShow e) = addShow e := by
   induction e generalizing pc k with
   | num i => rfl
   | var i => rfl
   | str i => rfl
   | group e ih =>
+    simp only [noConcat] at hn
     simp only [canon, Bool.and_eq_true] at hc
-    simp only [showE, addShow, render, ih _ _ hc.2]
+    simp only [addShow, ih hn _ _ hc.2]
   | unary op e ih =>
+    simp only [noConcat] at hn
     simp only [canon, Bool.and_eq_true] at hc
-    simp only [showE, addShow, render, pg_render 10 (.unary op e) e rfl (ih _ _ hc.2)]
+    simp only [addShow, pg_idem 10 e (by omega) (ih hn _ _ hc.2)]
   | binary op l r ihl ihr =>
+    simp only [noConcat, Bool.and_eq_true] at hn
     simp only [canon, Bool.and_eq_true] at hc
-    simp only [showE, addShow, render, pg_render (bopPrec op) (.binary op l r) l rfl (ihl _ _ hc.1.1.2),
-      pg_render (bopPrec op) (.binary op l r) r rfl (ihr _ _ hc.1.2)]
+    simp only [addShow, pg_idem _ l (bopPrec_le op) (ihl hn.1.2 _ _ hc.1.1.2), pg_idem _ r (bopPrec_le op) (ihr hn.2 _ _ hc.1.2)]
   | cond c t f ihc iht ihf =>
+    simp only [noConcat, Bool.and_eq_true] at hn
     simp only [canon, Bool.and_eq_true] at hc
-    simp only [showE, addShow, render, pg_render 1 (.cond c t f) c rfl (ihc _ _ hc.1.1.2),
-      pg_render 1 (.cond c t f) t rfl (iht _ _ hc.1.2), pg_render 1 (.cond c t f) f rfl (ihf _ _ hc.2)]
+    simp only [addShow, pg_idem 1 c (by omega) (ihc hn.1.1 _ _ hc.1.1.2), pg_idem 1 t (by omega) (iht hn.1.2 _ _ hc.1.2),
+      pg_idem 1 f (by omega) (ihf hn.2 _ _ hc.2)]
   | assign op l r ihl ihr =>
-    cases l <;> simp [canon] at hc
-    rename_i a
-    simp only [showE, addShow, render, pg_render 0 (.assign op (.var a) r) r rfl (ihr _ _ hc.2), pg_zero]
-    simp [parenT, goPrec]
-  | none => simp [canon] at hc
-  | inArr e a ih =>
+    cases l <;> simp only [noConcat, Bool.false_eq_true] at hn
     simp only [canon, Bool.and_eq_true] at hc
-    simp only [showE, addShow, render, pg_render 4 (.inArr e a) e rfl (ih _ _ hc.2)]
-  | incr p d e _ => simp [canon] at hc
-  | field e _ => simp [canon] at hc
-  | index a i _ => simp [canon] at hc
-  | getline c t f _ _ _ => simp [canon] at hc
+    simp only [addShow, pg_zero, ihr hn _ _ hc.2]
+  | inArr e a ih =>
+    simp only [noConcat] at hn
+    simp only [canon, Bool.and_eq_true] at hc
+    simp only [addShow, pg_idem 4 e (by omega) (ih hn _ _ hc.2)]
+  | none => simp [noConcat] at hn
+  | incr p d e _ => simp [noConcat] at hn
+  | field e _ => simp [noConcat] at hn
+  | index a i _ => simp [noConcat] at hn
+  | getline c t f _ _ _ => simp [noConcat] at hn
+
+theorem showE_eq_render (e : Expr) (hn : noConcat e = true) (pc : Bool) (k : Nat) (hc : canon pc k e = true) :
+    showE e = render (addShow e) := by
+  induction e generalizing pc k with
+  | num i => rfl
+  | var i => rfl
+  | str i => rfl
+  | group e ih =>
+    simp only [noConcat] at hn
+    simp only [canon, Bool.and_eq_true] at hc
+    simp only [showE, addShow, render, ih hn _ _ hc.2]
+  | unary op e ih =>
+    simp only [noConcat] at hn
+    simp only [canon, Bool.and_eq_true] at hc
+    simp only [showE, addShow, render, pg_render 10 (.unary op e) e rfl (ih hn _ _ hc.2)]
+  | binary op l r ihl ihr =>
+    simp only [noConcat, Bool.and_eq_true] at hn
+    simp only [canon, Bool.and_eq_true] at hc
+    simp only [showE, addShow, render, pg_render (bopPrec op) (.binary op l r) l rfl (ihl hn.1.2 _ _ hc.1.1.2),
+      pg_render (bopPrec op) (.binary op l r) r rfl (ihr hn.2 _ _ hc.1.2)]
+  | cond c t f ihc iht ihf =>
+    simp only [noConcat, Bool.and_eq_true] at hn
+    simp only [canon, Bool.and_eq_true] at hc
+    simp only [showE, addShow, render, pg_render 1 (.cond c t f) c rfl (ihc hn.1.1 _ _ hc.1.1.2),
+      pg_render 1 (.cond c t f) t rfl (iht hn.1.2 _ _ hc.1.2), pg_render 1 (.cond c t f) f rfl (ihf hn.2 _ _ hc.2)]
+  | assign op l r ihl ihr =>
+    cases l <;> simp only [noConcat, Bool.false_eq_true] at hn
+    rename_i a
+    simp only [canon, Bool.and_eq_true] at hc
+    simp only [showE, addShow, render, pg_render 0 (.assign op (.var a) r) r rfl (ihr hn _ _ hc.2), pg_zero]
+    simp [parenT, goPrec]
+  | inArr e a ih =>
+    simp only [noConcat] at hn
+    simp only [canon, Bool.and_eq_true] at hc
+    simp only [showE, addShow, render, pg_render 4 (.inArr e a) e rfl (ih hn _ _ hc.2)]
+  | none => simp [noConcat] at hn
+  | incr p d e _ => simp [noConcat] at hn
+  | field e _ => simp [noConcat] at hn
+  | index a i _ => simp [noConcat] at hn
+  | getline c t f _ _ _ => simp [noConcat] at hn
+
+theorem noConcat_pg (p : Nat) (c s : Expr) (h : noConcat s = true) : noConcat (pg p c s) = true := by
+  unfold pg; split <;> simp [noConcat, h]
+
+theorem noConcat_addShow (e : Expr) (hn : noConcat e = true) : noConcat (addShow e) = true := by
+  induction e with
+  | num i => exact hn
+  | var i => exact hn
+  | str i => exact hn
+  | group e ih => simp only [noConcat] at hn; simp only [addShow, noConcat, ih hn]
+  | unary op e ih => simp only [noConcat] at hn; simp only [addShow, noConcat, noConcat_pg _ _ _ (ih hn)]
+  | binary op l r ihl ihr =>
+    simp only [noConcat, Bool.and_eq_true] at hn
+    simp only [addShow, noConcat, Bool.and_eq_true, noConcat_pg _ _ _ (ihl hn.1.2), noConcat_pg _ _ _ (ihr hn.2), hn.1.1, and_self]
+  | cond c t f ihc iht ihf =>
+    simp only [noConcat, Bool.and_eq_true] at hn
+    simp only [addShow, noConcat, Bool.and_eq_true, noConcat_pg _ _ _ (ihc hn.1.1), noConcat_pg _ _ _ (iht hn.1.2),
+      noConcat_pg _ _ _ (ihf hn.2), and_self]
+  | assign op l r ihl ihr =>
+    cases l <;> simp only [noConcat, Bool.false_eq_true] at hn
+    simp only [addShow, pg_zero, noConcat, ihr hn]
+  | inArr e a ih => simp only [noConcat] at hn; simp only [addShow, noConcat, noConcat_pg _ _ _ (ih hn)]
+  | none => simp [noConcat] at hn
+  | incr p d e _ => simp [noConcat] at hn
+  | field e _ => simp [noConcat] at hn
+  | index a i _ => simp [noConcat] at hn
+  | getline c t f _ _ _ => simp [noConcat] at hn
 
 theorem canon_false_of_true (e : Expr) : ∀ k, canon true k e = true → canon false k e = true := by
   induction e with
@@ -130,17 +182,20 @@ theorem canon_false_of_true (e : Expr) : ∀ k, canon true k e = true → canon 
     exact ⟨⟨⟨h.1.1.1, ihc _ h.1.1.2⟩, h.1.2⟩, ihf _ h.2⟩
   | assign op l r ihl ihr =>
     intro k h
-    cases l <;> simp [canon] at h
-    simp only [canon, Bool.and_eq_true, decide_eq_true_eq]
+    simp only [canon, Bool.and_eq_true] at h ⊢
     exact ⟨h.1, ihr _ h.2⟩
   | none => intro k h; simp [canon] at h
   | inArr e a ih =>
     intro k h
     simp only [canon, Bool.and_eq_true] at h ⊢
     exact ⟨h.1, ih _ h.2⟩
-  | incr p d e _ => intro k h; simp [canon] at h
-  | field e _ => intro k h; simp [canon] at h
-  | index a i _ => intro k h; simp [canon] at h
+  | incr p d e _ =>
+    intro k h
+    cases p
+    · cases e <;> simpa [canon] using h
+    · simpa [canon] using h
+  | field e _ => intro k h; simpa [canon] using h
+  | index a i _ => intro k h; simpa [canon] using h
   | getline c t f _ _ _ => intro k h; simp [canon] at h
 
 theorem canon_false (pc : Bool) (k : Nat) (e : Expr) (h : canon pc k e = true) : canon false k e = true := by
@@ -156,16 +211,6 @@ theorem canon_pg (pc : Bool) (q p : Nat) (child : Expr) (hq : q ≤ 15) (hq1 : 1
   · simp only [canon, Bool.and_eq_true, decide_eq_true_eq]
     exact ⟨hq, ih false 1 (canon_false pc 1 child (canon_mono pc child q 1 h0 hq1))⟩
   · exact ih pc q h0
-
-/-- no concatenation node (the printer theorems do not cover the blank operator yet) -/
-def noConcat : Expr → Bool
-  | .group e => noConcat e
-  | .unary _ e => noConcat e
-  | .binary op l r => op != .concat && noConcat l && noConcat r
-  | .cond c t f => noConcat c && noConcat t && noConcat f
-  | .assign _ l r => noConcat l && noConcat r
-  | .inArr e _ => noConcat e
-  | _ => true
 
 theorem canon_addShow (e : Expr) (hn : noConcat e = true) : ∀ pc k, canon pc k e = true → canon pc k (addShow e) = true := by
   induction e with
@@ -198,19 +243,18 @@ theorem canon_addShow (e : Expr) (hn : noConcat e = true) : ∀ pc k, canon pc k
       canon_pg false 1 1 t (by omega) (by omega) h.1.2 (iht hn.1.2)⟩, canon_pg pc 1 1 f (by omega) (by omega) h.2 (ihf hn.2)⟩
   | assign op l r ihl ihr =>
     intro pc k h
-    simp only [noConcat, Bool.and_eq_true] at hn
-    cases l <;> simp [canon] at h
-    simp only [addShow, pg_zero, canon, Bool.and_eq_true, decide_eq_true_eq]
-    exact ⟨h.1, ihr hn.2 _ _ h.2⟩
+    cases l <;> simp only [noConcat, Bool.false_eq_true] at hn
+    simp only [addShow, pg_zero, canon, Bool.and_eq_true, decide_eq_true_eq] at h ⊢
+    exact ⟨h.1, ihr hn _ _ h.2⟩
   | inArr e a ih =>
     intro pc k h
     simp only [noConcat] at hn
     simp only [addShow, canon, Bool.and_eq_true] at h ⊢
     exact ⟨h.1, canon_pg pc 5 4 e (by omega) (by omega) h.2 (ih hn)⟩
   | none => intro pc k h; simp [canon] at h
-  | incr p d e _ => intro pc k h; simp [canon] at h
-  | field e _ => intro pc k h; simp [canon] at h
-  | index a i _ => intro pc k h; simp [canon] at h
+  | incr p d e _ => simp [noConcat] at hn
+  | field e _ => simp [noConcat] at hn
+  | index a i _ => simp [noConcat] at hn
   | getline c t f _ _ _ => intro pc k h; simp [canon] at h
 
 end GoawkModel.C20
